@@ -185,7 +185,7 @@ CHECKS["C02"] = sched_check("C02",
     "evaluated between scheduling points (a new block overlaps no live block of any thread, contents intact at free/verify), no allocator error report, no crash/assert, no livelock, "
     "and at the end nothing is left in any heap. Non-trivial = a thread was preempted inside an allocator call and, before it resumed, another thread performed a write/RMW on an "
     "atomic location that the preempted call also accesses. Distinct = hash of (program IR + schedule).",
-    60000, 1500000)
+    90000, 1500000)
 
 CHECKS["C08"] = sched_check("C08",
     "cases = (program, schedule). (a) quiescence programs: an owner thread allocates blocks of classes that fill pages (16 B-1 MiB; single-block pages sit in the full queue at once), "
